@@ -267,6 +267,48 @@ def h_outgoing(ctx, name, flags, enc):
     return obs
 
 
+def h_outgoing_after_failure(ctx, name, flags, enc):
+    """one send fails below the layer set (the write raises; the sender gets the error), then the entity is sent: it still leaves as exactly
+    one stanza -- every lock on the way down is a recording one, so a lock the failed send left held shows instead of hanging"""
+    import threading as _threading
+    import yowsup.layers as LM
+    from checks import c12
+    from yowsup.layers.protocol_presence.protocolentities import AvailablePresenceProtocolEntity
+
+    class FakeThreading(object):
+        def Lock(self_):
+            return c12.RecLock("a layer's send lock")
+
+        def __getattr__(self_, n):
+            return getattr(_threading, n)
+    real = LM.threading
+    LM.threading = FakeThreading()
+    try:
+        st, bottom, app, mgr = _stack(flags, enc)
+    finally:
+        LM.threading = real
+    orig_send = bottom.send
+    state = {"fail": True}
+
+    def send(data):
+        if state["fail"]:
+            state["fail"] = False
+            raise OSError(32, "Broken pipe")
+        return orig_send(data)
+    bottom.send = send
+    raised = None
+    try:
+        app.toLower(AvailablePresenceProtocolEntity())
+    except OSError as e:
+        raised = e
+    ent = _make_out(ctx, name)
+    try:
+        app.toLower(ent)
+    except c12.WouldBlock as e:
+        return [("the failed send is reported to the sender", raised is not None), ("the next entity is not blocked for ever (%s)" % e, False)]
+    return [("the failed send is reported to the sender", raised is not None), ("the next entity leaves as exactly one stanza (got %d)" % len(bottom.down), len(bottom.down) == 1)]
+
+
 def h_incoming_encrypted(ctx, enctype, payload):
     """encrypted incoming message stanzas (one or several envelopes) through the receive-side encryption layer and the message layers,
     under the ideal manager of C03: exactly one entity at the application"""
@@ -302,6 +344,8 @@ def cases(tier):
             cs.append(dict(name="in-unknown[%s]" % tag, fn=h_incoming_unknown, args=(fl, enc), max_paths=4000))
             for n in outs:
                 cs.append(dict(name="out[%s,%s]" % (n.split(":")[-1], tag), fn=h_outgoing, args=(n, fl, enc), max_paths=2000))
+    for n in [x for x in outs if x.split(":")[-1] in ("TextMessage", "PingIq", "OutgoingReceipt", "LastseenIq", "OutgoingChatstateProtocolEntityTest", "GetSyncIqProtocolEntityTest", "ImageDownloadableMediaMessageProtocolEntityTest")]:
+        cs.append(dict(name="out-after-failed-send[%s]" % n.split(":")[-1], fn=h_outgoing_after_failure, args=(n, "all", True), max_paths=2000))
     for k in ("lastseen", "group-info", "picture-get", "media-upload", "groups-list"):
         cs.append(dict(name="out-answered-during-send[%s]" % k, fn=h_outgoing_sync_reply, args=(k,), max_paths=2000))
     for enctype in ("pkmsg", "msg", "skmsg", "pkmsg+skmsg"):
